@@ -121,6 +121,7 @@ def gen_trees(rng, tier, nkinds):
                 out.append(e)
                 for p in nodes(e):
                     out.append(wrap_at(e, p, 2))
+                    out.append(wrap_at(e, p, 1))      # `x * 1` is a composite of one element, not `x` itself
     # random larger trees, with repeated objects and distinct objects of the same kind
     nrand = 300 if tier == "quick" else 6000
     for _ in range(nrand):
